@@ -8,7 +8,7 @@ ASSUMPTIONS = ["scripted terminal: releases acknowledgement + first reply after 
 
 
 def run(ctx, out):
-    spec = S.load_schema(ctx.schema)
+    spec = S.load_spec()        # reply alphabets, kinds and final sets from the frozen specification table
     rng = ctx.rng
     thorough = ctx.search_tier == "thorough"
     depth = 5 if thorough else 3
